@@ -704,7 +704,7 @@ pub fn simulate(base: &Path, cfg: txtpp::Config, sched: &Sched, opts: &SimOpts) 
         if enabled.is_empty() && blocked_senders {
             // give a sender that was merely slow a chance before calling it a deadlock
             let n0 = st.log.len();
-            let (g, _) = sim.cv.wait_timeout(st, Duration::from_secs(10)).unwrap();
+            let (g, _) = sim.cv.wait_timeout(st, Duration::from_secs(5)).unwrap();
             st = g;
             if st.log.len() != n0 {
                 continue;
